@@ -1174,10 +1174,20 @@ def emit_fn(em, info, unit, cur_source, blk, typemap):
                 return [t[0] for t in tokenize(ft.text[L[1]:L[2]])]
             def hdr_match(L):
                 # whole-header match; $x / $_x in %match bind sub-expressions of the header (substituted into %pre/%loop/%open/%close)
-                ht = tokenize(ft.text[L[1]:L[2]])
+                htxt = ft.text[L[1]:L[2]]
+                ht = tokenize(htxt)
                 for (i, j, b) in find_tokseq(ht, want):
                     if i == 0 and j == len(ht):
-                        return {k: " ".join(v) for k, v in b.items()}
+                        out = {}
+                        for k, v in b.items():
+                            # the bound sub-expression as the repository spells it (token text joined blindly would split `..`)
+                            txt = " ".join(v)
+                            for s0 in range(len(ht)):
+                                if [t[0] for t in ht[s0:s0 + len(v)]] == v:
+                                    txt = htxt[ht[s0][1]:ht[s0 + len(v) - 1][2]]
+                                    break
+                            out[k] = txt
+                        return out
                     break
                 return None
             if nth > len(loops) or loops[nth - 1][0] != "for" or hdr_match(loops[nth - 1]) is None:
